@@ -20,8 +20,8 @@ CLAIMED['C18'] = dict(
     ref='DESIGN.md section 3, C18')
 
 CLAIMED['C02'] = dict(
-    text='Bounded model checking of the real codegen/struct_layout.rs, helpers::{blob,integer_type,bitfield_unit} and ir/layout.rs: for each alignment/packing tuple (natural, packed, #pragma pack(2|4), aligned(N) on a member) the solver chooses member sizes and options; C offsets come from an Itanium/SysV record-layout model, the emitted field list (members + decoded padding blobs) is laid out by the Rust repr(C)/packed(n)/align(n) rules, and member offsets, size and alignment must coincide. Plus blob exactness, padding-blob placement, Layout::for_size and align_to over their whole domains. Kernel level: the arithmetic that decides layout, not a C compiler round trip.',
-    note='Trusted: Kani/CBMC; the C record-layout model and the Rust repr rules written in the harness; decoding macros of the stub environment. The statement order of CompInfo::codegen is a hand model pinned by sha256. Not covered: primitive type mapping, enum repr, libclang numbers, C++ tail padding reuse, value round trips.',
+    text='Bounded model checking of the real codegen/struct_layout.rs, helpers::{blob,integer_type,bitfield_unit} and ir/layout.rs: for each alignment/packing tuple (natural, packed, #pragma pack(2|4), aligned(N) on a member) the solver chooses member sizes and options; C offsets come from an Itanium/SysV record-layout model, the emitted field list (members + decoded padding blobs) is laid out by the Rust repr(C)/packed(n)/align(n) rules, and member offsets, size and alignment must coincide. Plus blob exactness, padding-blob placement, Layout::for_size and align_to over their whole domains. Also: the REAL text of the layout region of CompInfo::codegen (padding, packed/align attribute decision, opaque and union blobs) compiled against the same environment (kernel driver), CompInfo::is_packed / already_packed, the <stdint.h> name table, int_kind_rust_type / float_kind_rust_type against IntKind::{is_signed,known_size}, and the libclang builtin-kind match of build_builtin_ty. Kernel level: the arithmetic and tables that decide layout, not a C compiler round trip.',
+    note='Trusted: Kani/CBMC; the C record-layout model and the Rust repr rules written in the harness; decoding macros of the stub environment. Kernel layout uses a hand model of the CompInfo::codegen driver for breadth; kernel driver uses the real region. Not covered: numbers libclang reports, C++ tail padding reuse, value round trips through a C compiler, field emission order (Field::codegen).',
     ref='DESIGN.md section 3, C02')
 CLAIMED['C05'] = dict(
     text='Bounded model checking over ALL i64 values and option combinations of default_macro_constant_type (kind holds the value, sign rule, narrowest allowed), the literal choice of Var::codegen composed with the real IntKind::{is_signed,known_size}, the char-literal conversion of Var::parse, EvalResult::as_int against a libclang contract stub, and the enum repr translation table. Kernel level.',
@@ -49,7 +49,7 @@ CLAIMED['C09'] = dict(
     note='Trusted: Kani/CBMC; stub IR. Not covered: root selection (regex crate, path strings), textual identity between runs, compiling the subset; the step-to-whole-run composition is on paper.',
     ref='DESIGN.md section 3, C09')
 CLAIMED['C10'] = dict(
-    text='Three kernels: helpers::blob has exactly the requested size and alignment (all sizes <= 65536, alignments 0..64, ffi_safe/namespaces symbolic) and a plain array only where allowed; an opaque item exposes no Field/BaseMember edges and a blocklisted root is never yielded by the allowlisting traversal while its references are; a blocklisted (non-allowlisted) type derives exactly what the user vouches for (real decision closure of blocklisted_type_implements_trait inside the real derive rule).',
+    text='The opaque path of the REAL CompInfo::codegen region emits exactly one blob of the C size and alignment and never repr(packed) next to repr(align); a helper type blocklisted as type or item is not defined; and three shared kernels: helpers::blob has exactly the requested size and alignment (all sizes <= 65536, alignments 0..64, ffi_safe/namespaces symbolic) and a plain array only where allowed; an opaque item exposes no Field/BaseMember edges and a blocklisted root is never yielded by the allowlisting traversal while its references are; a blocklisted (non-allowlisted) type derives exactly what the user vouches for (real decision closure of blocklisted_type_implements_trait inside the real derive rule).',
     note='Trusted: Kani/CBMC; stub IR and layout stubs. Not covered: is_blocklisted / opaque_by_name (regex + paths), that use sites still name the type, layout with a user-supplied definition, the opaque path of CompInfo::codegen.',
     ref='DESIGN.md section 3, C10')
 CLAIMED['C12'] = dict(
